@@ -354,15 +354,29 @@ def _collect(ctx, vip, rule):
                    construct='%s in the handler of os.stat' % node.text(40))
 
 
+def _claimer(vip):
+    """The method of the address manager that claims one address for an
+    owner: the one creating the link (os.symlink) - by role, whatever it is
+    called."""
+    inner = vip.methods.get('_alloc')
+    if inner is not None:
+        return inner
+    for func in vip.methods.values():
+        if any(K.callee_text(c) == 'os.symlink' for c in K.calls(func.raw)) \
+                and len(func.params()) == 3:
+            return func
+    return None
+
+
 def _in_network(ctx, vip):
     nz = N.Normaliser()
-    inner = vip.methods.get('_alloc')
+    inner = _claimer(vip)
     ctx.require(inner is not None, 'VipMgr._alloc')
     n = 0
     for func in vip.live_methods():
         graph = None
         for sub in K.walk_no_nested(func.node):
-            if isinstance(sub, ast.Call) and K.is_meth(sub, '_alloc') and \
+            if isinstance(sub, ast.Call) and K.is_meth(sub, inner.name) and \
                     K.recv_text(sub) == 'self' and len(sub.args) == 2:
                 graph = graph or ctx.cfg(func)
                 n += 1
@@ -514,7 +528,9 @@ def _discipline(ctx, vip, rule, epm):
         def claimed(edge, val=val):
             for a in nz.facts_of_edge(edge):
                 if a.key[0] == 'truth' and a.key[2] and \
-                        a.key[1].startswith('self._alloc(') and \
+                        a.key[1].startswith('self.%s(' % (
+                            _claimer(vip).name if _claimer(vip) else
+                            '_alloc')) and \
                         a.key[1].endswith(', %s)' % val):
                     return True
             return False
